@@ -64,8 +64,8 @@ CLAUSE_OF_KIND = {"frame": ("frame",), "safe": ("raises",), "post@return": ("ret
                   "pre": None, "kind": None, "inv-init": None, "inv-keep": None, "assert": None}
 
 
-def model_values(eng, o, timeout=10.0):
-    text = eng.vc_text(o, with_check=False)
+def model_values(eng, o, timeout=10.0, rep=None):
+    text = eng.vc_text(o, with_check=False, rep=rep)
     terms = list(o.inputs.values())
     vals = smt.get_values(text, terms, timeout=timeout)
     if vals is None:
@@ -81,11 +81,12 @@ def run(runobj, spec, timeout=10.0, only=None, verbose=False):
     res = {"functions": [], "obligations": 0, "discharged": 0, "undecided": [], "out_of_subset": [],
            "failed": [], "by_backend": {}, "solver_s": 0.0, "covers_sat": 0, "dead_paths": 0,
            "trusted_base": set(), "samples": [], "assumed_contracts": set(), "trivial": 0}
-    pool = ThreadPoolExecutor(int(os.environ.get("PYVC_JOBS", "14")))
+    eng.defer = True
+    reps = [(c, eng.verify(c, timeout=timeout)) for c in cs]
+    eng.discharge_many([r for _, r in reps], timeout, jobs=int(os.environ.get("PYVC_JOBS", "15")))
     try:
-        for c in cs:
+        for c, rep in reps:
             ck = (c.key, c.inst)
-            rep = eng.verify(c, timeout=timeout, pool=pool)
             frec = {"qualname": c.name, "key": c.key, "sha256": rep.sha, "obligations": len(rep.obligations),
                     "discharged": 0, "paths": rep.paths, "out_of_subset": rep.out_of_subset,
                     "trivially_true": rep.trivial, "wall_s": round(rep.wall, 2), "calls_by_contract": rep.called}
@@ -125,7 +126,7 @@ def run(runobj, spec, timeout=10.0, only=None, verbose=False):
                     if len(res["samples"]) < 6:
                         res["samples"].append({"obligation": o.name, "solver": r.solver, "s": round(r.time, 3), "what": o.detail[:120]})
                 elif r.status == "sat":
-                    handle_failed(runobj, eng, c, o, res, keep, timeout)
+                    handle_failed(runobj, eng, c, o, res, keep, timeout, rep)
                 else:
                     res["undecided"].append({"obligation": o.name, "status": r.status, "what": o.detail[:160],
                                              "attempts": r.attempts})
@@ -133,21 +134,21 @@ def run(runobj, spec, timeout=10.0, only=None, verbose=False):
                 print(f"  {c.name}: {frec['discharged']}/{frec['obligations']} paths={rep.paths} {rep.wall:.1f}s")
             res["functions"].append(frec)
     finally:
-        pool.shutdown()
+        pass
     res["trusted_base"] = sorted(res["trusted_base"])
     res["assumed_contracts"] = sorted(res["assumed_contracts"])
     return res
 
 
-def handle_failed(runobj, eng, c, o, res, keep, timeout):
+def handle_failed(runobj, eng, c, o, res, keep, timeout, rep=None):
     """A sat obligation: find a native witness; classify against known findings; record."""
     os.makedirs(keep, exist_ok=True)
-    text = eng.vc_text(o)
+    text = eng.vc_text(o, rep=rep)
     fname = os.path.join(keep, "".join(ch if ch.isalnum() or ch in "._-#@[]" else "_" for ch in o.name) + ".smt2")
     open(fname, "w").write(text)
     model = None
     try:
-        model = model_values(eng, o)
+        model = model_values(eng, o, rep=rep)
     except Exception:
         model = None
     kinds = CLAUSE_OF_KIND.get(o.kind.split("[")[0], None)
